@@ -76,6 +76,8 @@ static void run_case(const Geom &g, const Opt &o, bool emit, int big_threshold) 
   for (int a = 0; a < in.num_attributes(); ++a)
     if (o.qbits.size() > (size_t)a && o.qbits[a] > 0) skip.push_back(in.attribute(a)->attribute_type());
   std::sort(skip.begin(), skip.end()); skip.erase(std::unique(skip.begin(), skip.end()), skip.end());
+  if (n_cases % 3 == 1) std::reverse(skip.begin(), skip.end());      // the order of the SetSkipAttributeTransform calls is the caller's business
+  else if (n_cases % 3 == 2 && skip.size() > 2) std::swap(skip[0], skip[1]);
   if (e1.ok) ds = decode(e1.bytes.data(), e1.bytes.size(), skip);
   out.b("dok", d1.ok).s("derr", d1.err).b("input_unchanged", before == e1.bytes);
   out.raw("h_dec1", h64(d1.ok ? geom_digest(*d1.pc, d1.is_mesh) : 1)).raw("h_dec2", h64(d2.ok ? geom_digest(*d2.pc, d2.is_mesh) : 2))
@@ -216,10 +218,16 @@ static void run_case(const Geom &g, const Opt &o, bool emit, int big_threshold) 
       const AttributeTransformData *td = sa_pos->GetAttributeTransformData();
       bool rebuilt_ok = false;
       if (td->transform_type() == ATTRIBUTE_QUANTIZATION_TRANSFORM) {
-        AttributeQuantizationTransform t;
+        // every second case reads the description into ONE transform object that has read all earlier descriptions (other bit counts, other
+        // component counts): what it describes is the attribute at hand, not a mix with what it described before
+        static AttributeQuantizationTransform reused_t;
+        AttributeQuantizationTransform fresh_t;
+        AttributeQuantizationTransform &t = (n_cases % 2) ? reused_t : fresh_t;
         if (t.InitFromAttribute(*sa_pos)) { rebuilt->Init(na->attribute_type(), na->num_components(), DT_FLOAT32, false, sa_pos->size()); rebuilt_ok = t.InverseTransformAttribute(*sa_pos, rebuilt.get()); }
       } else if (td->transform_type() == ATTRIBUTE_OCTAHEDRON_TRANSFORM) {
-        AttributeOctahedronTransform t;
+        static AttributeOctahedronTransform reused_o;
+        AttributeOctahedronTransform fresh_o;
+        AttributeOctahedronTransform &t = (n_cases % 2) ? reused_o : fresh_o;
         if (t.InitFromAttribute(*sa_pos)) { rebuilt->Init(na->attribute_type(), 3, DT_FLOAT32, false, sa_pos->size()); rebuilt_ok = t.InverseTransformAttribute(*sa_pos, rebuilt.get()); }
       }
       portable = rebuilt_ok && (sa_pos->data_type() == DT_INT32 || sa_pos->data_type() == DT_UINT32);
